@@ -102,7 +102,11 @@ class TaskScheduler(object):
             while len(self._tasks) > init_num_tasks:
                 if len(self._tasks) > _debug_options.MAX_TASK_STACK_SIZE:
                     self._abandon_tasks(0)
+                    # a task that made the synchronous call we are in is still executing:
+                    # it stays the active task
+                    active_task = self.active_task
                     self.reset()
+                    self.active_task = active_task
                     debug.dump(self)
                     raise RuntimeError(
                         "Number of scheduled tasks exceeded maximum threshold."
